@@ -303,6 +303,9 @@ func gen(r *coqfmt.Rng, n int, tier string) []json.RawMessage {
 		if in.Mode == "nomon" {
 			in.N = 4 + r.Intn(10)
 		}
+		if r.Chance(1, 60) {
+			in.Mode, in.N = "overflow", 420+r.Intn(80)
+		}
 		b, _ := json.Marshal(in)
 		out = append(out, b)
 	}
